@@ -6,17 +6,22 @@ Open Scope Z_scope.
 Open Scope list_scope.
 
 (* ---------- keyed batches ---------- *)
-Definition enc_queue (kq : list (list (Z * val))) : list (list val) := map (map enc_kv) kq.
+(* a queue source of keyed batches: entries (None = an explicit idle interval) and the default batch *)
+Record ksource : Type := mkK { kentries : list (option (list (Z * val))); kdefault : option (list (Z * val)) }.
+Definition plain_k (l : list (list (Z * val))) : ksource := mkK (map Some l) None.
+Definition enc_entry (e : option (list (Z * val))) : option (list val) := option_map (map enc_kv) e.
+Definition enc_queue (kq : ksource) : source := mkSource (map enc_entry (kentries kq)) (enc_entry (kdefault kq)).
 (* the keyed batch of interval i+1; nothing once the queue is exhausted *)
-Definition kbatch (kq : list (list (Z * val))) (i : nat) : list (Z * val) := nth i kq [].
-Definition kbatches (kq : list (list (Z * val))) (n : nat) : list (list (Z * val)) := map (kbatch kq) (seq 0 n).
+Definition kbatch (kq : ksource) (i : nat) : list (Z * val) :=
+  match nth i (kentries kq) (kdefault kq) with Some b => b | None => [] end.
+Definition kbatches (kq : ksource) (n : nat) : list (list (Z * val)) := map (kbatch kq) (seq 0 n).
 
 (* the state RDD after n intervals (iterating the cogroup/mapValues step of the model) *)
-Fixpoint state_after (u : list val -> val -> val) (kq : list (list (Z * val))) (n : nat) : list (Z * val) :=
+Fixpoint state_after (u : list val -> val -> val) (kq : ksource) (n : nat) : list (Z * val) :=
   match n with O => [] | S m => state_step u (kbatch kq m) (state_after u kq m) end.
-Definition state_rdd (u : list val -> val -> val) (kq : list (list (Z * val))) (n : nat) : rdd :=
+Definition state_rdd (u : list val -> val -> val) (kq : ksource) (n : nat) : rdd :=
   match n with O => RNone | S _ => RData (map enc_kv (state_after u kq n)) end.
-Definition st_state (u : list val -> val -> val) (kq : list (list (Z * val))) (n : nat) (T : Z) : nstate :=
+Definition st_state (u : list val -> val -> val) (kq : ksource) (n : nat) (T : Z) : nstate :=
   mkN T (state_rdd u kq n) [] [] win_counter_init (state_after u kq n).
 
 Lemma all_kv_enc l : all_kv (map enc_kv l) = Some l.
@@ -27,10 +32,10 @@ Qed.
 Lemma src_rdd_enc kq i :
   src_rdd (enc_queue kq) i <> RNone /\ all_kv (collect (src_rdd (enc_queue kq) i)) = Some (kbatch kq i).
 Proof.
-  unfold src_rdd, enc_queue, kbatch. rewrite nth_error_map.
-  destruct (nth_error kq i) as [b|] eqn:E; cbn [option_map collect].
-  - split; [discriminate|]. rewrite all_kv_enc. f_equal. symmetry. now apply nth_error_nth.
-  - split; [discriminate|]. apply nth_error_None in E. now rewrite nth_overflow.
+  unfold src_rdd, enc_queue, kbatch. cbn [sq sd]. rewrite (map_nth enc_entry).
+  destruct (nth i (kentries kq) (kdefault kq)) as [b|]; cbn [enc_entry option_map entry_rdd collect].
+  - split; [discriminate|]. apply all_kv_enc.
+  - split; [discriminate|]. reflexivity.
 Qed.
 
 Lemma stateful_post_state u kq n T t :
@@ -41,7 +46,7 @@ Proof.
 Qed.
 
 Section StatefulInstance.
-Variables (u : list val -> val -> val) (kq : list (list (Z * val))).
+Variables (u : list val -> val -> val) (kq : ksource).
 
 Lemma st_S1_step : forall F tail st n T t,
   nth_error (gnodes st) 0 = Some (src_state (enc_queue kq) (S n) t) ->
@@ -244,7 +249,7 @@ Qed.
 
 (* ---------- statements ---------- *)
 Section Statements.
-Variables (u : list val -> val -> val) (kq : list (list (Z * val))) (tail : list node).
+Variables (u : list val -> val -> val) (kq : ksource) (tail : list node).
 Local Notation g := (Src (enc_queue kq) :: Stateful u 0 :: tail).
 
 (* what a consumer collecting the state stream after the ticks ts decodes *)
@@ -323,10 +328,10 @@ Proof. intros vs. reflexivity. Qed.
 
 (* last, reset and min-or-None can return None: the key then stays in the state RDD with state None *)
 Lemma none_is_a_state :
-  state_after u_last [[(0, VInt 3); (0, VNone)]; []] 2 = [(0, VNone)] /\
-  state_after u_reset [[(0, VInt 3)]; []; [(0, VInt 1)]] 2 = [(0, VNone)] /\
-  state_after u_reset [[(0, VInt 3)]; []; [(0, VInt 1)]] 3 = [(0, VInt 1)] /\
-  state_after u_minopt [[(0, VNone); (1, VInt 2)]; [(1, VNone); (1, VInt (-1))]] 2 = [(0, VNone); (1, VInt (-1))].
+  state_after u_last (plain_k [[(0, VInt 3); (0, VNone)]; []]) 2 = [(0, VNone)] /\
+  state_after u_reset (plain_k [[(0, VInt 3)]; []; [(0, VInt 1)]]) 2 = [(0, VNone)] /\
+  state_after u_reset (plain_k [[(0, VInt 3)]; []; [(0, VInt 1)]]) 3 = [(0, VInt 1)] /\
+  state_after u_minopt (plain_k [[(0, VNone); (1, VInt 2)]; [(1, VNone); (1, VInt (-1))]]) 2 = [(0, VNone); (1, VInt (-1))].
 Proof. vm_compute. repeat split. Qed.
 
 (* the other two library functions are NOT of that kind (for them only the reading from the key's first interval
